@@ -1188,7 +1188,7 @@ def run(ctx):
     quick = ctx.tier == 'quick'
     n_unit = 150 if quick else 2000
     n_mal = 25 if quick else 150
-    n_pipe = 50 if quick else 700
+    n_pipe = 40 if quick else 700
     for i in range(n_unit):
         check_unit(ctx, gen_unit(rng, i))
     for i in range(n_mal):
